@@ -12,6 +12,16 @@ OneNotation == {
   << <<"SP","SP","HY","SP","x">>, <<"HY","SP","a">> >>,
   << <<"HY","SP","a">>, <<"HY","SP","a">>, <<"SP","SP","HY","SP","b">>, <<"SP","SP","SP","SP","SP","SP","HY","SP","c">> >>
 }
+\* every document of up to MaxPS lines over a pool in ONE notation (list roots, 2-space unit, three bullets,
+\* a blank line, an empty item, an off-unit line, a level jump) ...
+CONSTANT MaxPS
+BulletPool == { <<"HY","SP","a">>, <<"AS","SP","b">>, <<"SP","SP","HY","SP","a">>, <<"SP","SP","PL","SP","b">>,
+                <<"SP","SP","SP","SP","HY","SP","a">>, <<>>, <<"SP","SP","HY">>, <<"SP","SP","SP","HY","SP","a">>,
+                <<"SP","SP","SP","SP","SP","SP","HY","SP","b">> }
+BulletDocs == UNION {[1..n -> BulletPool] : n \in 1..MaxPS}
+\* ... and over a pool with # roots and tab-indented items below them
+HeadingPool == { <<"SH","SP","a">>, <<"SH","SH","SP","b">>, <<"HY","SP","a">>, <<"AS","SP","b">>, <<"TAB","HY","SP","a">>, <<>>, <<"TAB","TAB","HY","SP","b">> }
+HeadingDocs == {d \in UNION {[1..n -> HeadingPool] : n \in 1..MaxPS} : d[1] # <<>> /\ d[1][1] = "SH"}   \* first line is a heading
 \* documents that mix notations
 Mixed == {
   << <<"HY","SP","a">>, <<"SH","SP","b">>, <<"HY","SP","c">> >>,
